@@ -34,7 +34,7 @@ def setup():
     GF.compress_index(_dir / "a.vcf", _dir / "a.vcf.gz")
     GF.write_pgen(_dir / "g", SAMPLES, VARS, DATA)
     # the haplotypes section transforms bi-allelic genotypes
-    vars_b = [(v[0], v[1], v[2], v[3][:2]) for v in VARS]
+    vars_b = [(_long(v[0]), v[1], v[2], v[3][:2]) for v in VARS]
     data_b = [[(min(c[0], 1) if c[0] != 255 else 255, min(c[1], 1) if c[1] != 255 else 255, c[2]) for c in r] for r in DATA]
     GF.write_vcf_text(_dir / "gb.vcf", SAMPLES, vars_b, data_b)
     GF.compress_index(_dir / "gb.vcf", _dir / "gb.vcf.gz")
@@ -47,12 +47,17 @@ def setup():
     # haplotypes
     with open(_dir / "h.hap", "w") as f:
         f.write("H\t1\t10\t30\tH1\nH\t1\t20\t30\tH2\nR\t2\t15\t18\tR1\nH\t2\t15\t15\tH3\n")
-        f.write("V\tH1\t30\t31\tv3\tA\nV\tH1\t10\t11\tv1\tC\nV\tH2\t20\t21\tv2\tC\nV\tH2\t30\t31\tv3\tC\nV\tH3\t15\t16\tv4\tC\n")  # H1's V lines are not in position order
+        f.write(f"V\tH1\t30\t31\t{_long('v3')}\tA\nV\tH1\t10\t11\t{_long('v1')}\tC\nV\tH2\t20\t21\t{_long('v2')}\tC\nV\tH2\t30\t31\t{_long('v3')}\tC\nV\tH3\t15\t16\t{_long('v4')}\tC\n")  # H1's V lines are not in position order
     return _dir
 
 
 def teardown(_):
     C.rm_tree(_dir)
+
+
+def _long(vid):
+    """the variant IDs of the haplotypes section: of the chrom:pos:ref:alt kind and exactly as long as the genotype classes hold (50)"""
+    return (vid + ":" + "ACGT" * 13)[:50]
 
 
 def mk_gt(cls):
@@ -159,6 +164,7 @@ def impl_hist_gt(case):
 
     g = mk_gt(case["cls"])
     trace, mops = [], []
+    kept = []  # copies returned by subset(): they stay alive and are looked at again when the history is over
     sim = sim_ids = sim_rows = None
     Effect = namedtuple("Effect", "id beta")
     stopped = False
@@ -229,6 +235,7 @@ def impl_hist_gt(case):
             r = g.subset(inplace=o["inplace"], **kw)
             if not o["inplace"]:
                 e["returned"] = enc_gt(r)
+                kept.append((len(trace), r, C.jdump(e["returned"])))
             mops.append(o)
         elif o["k"] == "check_missing":
             d = np.asarray(g.data)
@@ -271,6 +278,11 @@ def impl_hist_gt(case):
         e["simulated_ids"] = sim_ids
         # the simulator archives every vector it returns next to the earlier ones: once the number of samples has changed it can only refuse
         e["simulated_rows_changed"] = d.ndim != 3 or d.shape[0] != sim_rows
+    if trace:
+        # a returned copy holds its own contents: whatever was done to the original afterwards (read again, subset, QC) is not its business
+        changed = [k for k, r, then in kept if C.jdump(C.guarded(enc_gt, r)) != then]
+        if changed:
+            trace[-1]["copies_changed_later"] = changed
     _mops[C.jdump(case)] = mops
     return {"trace": trace}
 
@@ -296,11 +308,20 @@ def equal_hist(a, b):
     return True
 
 
+def _copies_clause(obs):
+    for e in obs.get("trace", []) if isinstance(obs, dict) else []:
+        if e.get("copies_changed_later"):
+            return f"the copies returned by subset() at steps {e['copies_changed_later']} read differently (contents or ancestry labels) after the original was used further"
+    return None
+
+
 def oracle_hist(case, obs):
     """fresh-object oracle: every by-ID query must return what a fresh object built from the same visible
     contents returns; IDs must come back in the requested order, absent IDs dropped, rows bear their IDs"""
     if "error" in obs:
         return f"history raised {obs}"
+    if _copies_clause(obs):
+        return _copies_clause(obs)
     for k, (o, e) in enumerate(zip(case["ops"], obs["trace"])):
         if "merge" in e:
             m = e["merge"]
@@ -533,6 +554,22 @@ def _hp_query(h, gts):
         out["transform"] = np.asarray(hg.data).astype(int).tolist()
     except Exception as e:  # noqa
         out["transform_error"] = type(e).__name__
+    # a haplotype naming a variant the genotypes do not hold (the ID of one they hold plus one more letter): the genotypes cannot
+    # answer for it, whatever part of the ID another variant shares – a refusal or an omission, never the other variant's column
+    first = next((rec for rec in h.data.values() if isinstance(rec, _H) and rec.variants), None)
+    if first is not None:
+        f = _dir / "probe.hap"
+        with open(f, "w") as o:
+            o.write(f"H\t{first.chrom}\t{first.start}\t{first.end}\tPROBE\n")
+            for k, v in enumerate(first.variants):
+                o.write(f"V\tPROBE\t{v.start}\t{v.end}\t{v.id + ('T' if k == 0 else '')}\t{v.allele}\n")
+        probe = D.Haplotypes(f, log=SD.silent_log())
+        probe.read()
+        try:
+            pg = probe.transform(gts, D.GenotypesVCF(fname=None, log=SD.silent_log()))
+            out["absent_probe"] = "answered" if len(pg.variants) else "omitted"
+        except Exception as e:  # noqa
+            out["absent_probe"] = "refused" if C.deliberate_raise(e) else type(e).__name__
     return out
 
 
@@ -648,6 +685,8 @@ def oracle_hist_hp(case, obs):
     if "error" in obs:
         return f"history raised {obs}"
     for k, (o, e) in enumerate(zip(case["ops"], obs["trace"])):
+        if o["k"] == "query" and e["query"].get("absent_probe") == "answered":
+            return f"op {k}: a haplotype naming a variant ID the genotypes do not hold (a held ID plus one letter) was transformed: the ID was resolved to another variant's column"
         if o["k"] == "query" and e["query"] != e["fresh"]:
             return f"op {k}: by-ID operations on the object ({e['query']}) differ from a fresh object with the same records ({e['fresh']})"
         if o["k"] == "subset" and not o["inplace"] and e["returned_query"] != e["returned_fresh"]:
